@@ -34,7 +34,10 @@ def gen_table(rd, name: str, n_rows: Optional[int] = None, shape: Optional[int] 
     cols.append({"name": "n", "kind": "int",
                  "values": [None if rd.random() < null_rate else rd.randrange(-5, 21) for _ in range(n)]})
     if shape in (2, 3):
-        cols.append({"name": "s", "kind": "str", "values": [rd.choice(["u", "v", "w", "uu"]) for _ in range(n)]})
+        svals = ["u", "v", "w", "uu"]
+        if rd.random() < 0.3:
+            svals = svals + ["U", "\u00e9", "\u65e5\u672c", " u", "o'k", 'q"t', "%_", ""]  # case, non-ASCII, blanks, quotes, wildcards, empty
+        cols.append({"name": "s", "kind": "str", "values": [rd.choice(svals) for _ in range(n)]})
     return {"name": name, "cols": cols}
 
 
